@@ -280,6 +280,18 @@ func writeGroupIni(cmd *Command, group *Group, namespace string, writer io.Write
 					writeOption(writer, oname, kind, k, v, commentOption, option.iniQuote)
 				}
 			}
+		case reflect.Ptr:
+			// The quoting rule is that of the type pointed to; a nil
+			// pointer has no value to write
+			kind = val.Type().Elem().Kind()
+
+			if val.IsNil() {
+				writeOption(writer, oname, kind, "", "", true, option.iniQuote)
+			} else {
+				v, _ := convertToString(val, option.tag)
+
+				writeOption(writer, oname, kind, "", v, commentOption, option.iniQuote)
+			}
 		default:
 			v, _ := convertToString(val, option.tag)
 
